@@ -581,11 +581,11 @@ def _is_error_json(body):
     return ok and isinstance(j, dict) and bool(j.get("__exception__")) and isinstance(j.get("__class__"), str), j
 
 
-def faithful(case, obs, facts, obj, member, kw):
+def faithful(case, obs, facts, obj, member, kw, newline=False):
     """violations of the forwarding half for the split (obj, member); [] when the observation is a faithful forwarding"""
     out = []
     internal = member.startswith("_")
-    newline = "\n" in member
+    newline = newline or "\n" in member
 
     def bad(sig, what):
         if newline:
@@ -795,7 +795,7 @@ def judge(case, obs, facts):
                 out.extend(faithful(case, obs, facts, obj, member, kw))
     elif verdict == "multi":
         if obs["exc"] is None and not (code in REFUSALS and silent):
-            results = [faithful(case, obs, facts, o, m, kw) for o, m in c["matching"]]
+            results = [faithful(case, obs, facts, o, m, kw, newline="\n" in c["p"]) for o, m in c["matching"]]
             if all(results):
                 out.extend(results[-1])
     return out
@@ -1042,7 +1042,10 @@ def SHARDS(tier):
 
 
 def run(ctx):
+    import faulthandler
     idx, cnt = ctx.shard.get("index", 0), ctx.shard.get("count", 1)
+    # diagnostic only (never a verdict): if a shard is still running long after its budget, show where every thread is
+    faulthandler.dump_traceback_later(BUDGET_S[ctx.tier] + 90, exit=False)
     _env()
     try:
         n = 0
@@ -1053,3 +1056,4 @@ def run(ctx):
         ctx.search(case_strategy(), run_case, ctx.n(1500, 30000), nontrivial=_nontrivial, labels=_labels, name="gateway", max_rounds=10)
     finally:
         _shutdown_env()
+        faulthandler.cancel_dump_traceback_later()
